@@ -12,4 +12,5 @@ MODULES = [
     "contracts.readers",
     "contracts.dirac",
     "contracts.special",
+    "contracts.cov",
 ]
